@@ -235,6 +235,22 @@ def replay_case(arg):
                     fail('Posterior', 'value', dict(label=label, got=[float(gv), float(gs)], expected=[float(ev), float(es)]))
                 elif not interp.close(np.asarray(gg, dtype=float), np.asarray(eg, dtype=float), rtol=1e-5, atol=1e-6):
                     fail('Posterior', 'gradient', dict(label=label, got=np.asarray(gg).tolist(), expected=np.asarray(eg).tolist()))
+            # ---- the data is set a SECOND time, without a dose table: nothing of the first dataset's regimens survives --
+            if mode == 'indiv' and not fails and any(post['regimen'][k] for k in range(len(ids))):
+                ctrl.set_data(frame.drop(columns=['Dose', 'Duration']), dose_key=None, dose_duration_key=None,
+                              output_observable_dict={OUTPUTS[0]: 'Obs A', OUTPUTS[1]: 'Obs B'})
+                ctrl.set_log_prior(pints.ComposedLogPrior(*pri))
+                cnt['second_set_data_without_doses'] = 1
+                if ctrl.get_dosing_regimens() is not None:
+                    fail('Regimen', 'regimens_survive_a_dataset_without_doses', dict(got=str(ctrl.get_dosing_regimens())[:200]))
+                k0 = [k for k in range(len(ids)) if post['regimen'][k]][0]
+                refsim.clear_events()
+                with warnings.catch_warnings():
+                    warnings.simplefilter('ignore')
+                    ctrl.get_log_posterior(individual=ids[k0])(x.copy())
+                runs = [e for e in refsim.EVENTS if e['e'] == 'Run']
+                if not runs or any(e['protocol'] for e in runs):
+                    fail('AppliedRegimen', 'doses_of_the_previous_dataset_applied', dict(protocols=[e['protocol'] for e in runs]))
             # ---- the population model is swapped on the SAME controller for one reading the other covariate ----------
             if mode == 'popcov' and not fails:
                 ctrl.set_population_model(population_model(mode, 'A'))
